@@ -588,6 +588,9 @@ class StmtMixin:
                 yield s1, v
             elif isinstance(v.t, TRef) and self.method_key(v.t.cls, '__next__'):
                 yield s1, ('iterator', v)
+            elif isinstance(v.t, TRef) and v.t.cls in self.m.listlike:
+                # a list subclass modelled as an object holding its items
+                yield s1, ('seq', self.read_field(s1, v, self.m.listlike[v.t.cls]))
             else:
                 yield s1, ('seq', v)
 
